@@ -303,6 +303,8 @@ var evInterestingContentKeys = []string{
 	"membership", "join_authorised_via_users_server", "third_party_invite", "creator", "room_version", "join_rule", "allow",
 	"ban", "events", "events_default", "kick", "redact", "state_default", "users", "users_default", "invite", "notifications",
 	"aliases", "history_visibility", "redacts", "body", "msgtype", "displayname", "m.federate", "additional_creators",
+	// names that only LOOK like keep-list entries (dotted paths, prefixes, different case)
+	"third_party_invite.signed", "membership.x", "users.@alice:a.example", "content.membership", "Membership", "join_rule ", "signed",
 }
 
 func evFakeID(t *rapid.T, version, label string) string {
@@ -320,7 +322,9 @@ func evFakeID(t *rapid.T, version, label string) string {
 }
 
 func evGenContentValue(t *rapid.T, version, key string) jv {
-	o := jgenOpts{MaxDepth: 2, MaxWidth: 3, IntsOnly: vtraits[version].Canonical || rapid.IntRange(0, 3).Draw(t, "cints") > 0}
+	// numbers in event content stay within the statement's domain (integers within +/-(2^53-1));
+	// floats below v6 are injected separately where a check wants them
+	o := jgenOpts{MaxDepth: 2, MaxWidth: 3, IntsOnly: true}
 	switch key {
 	case "membership":
 		return jstr(rapid.SampledFrom([]string{"join", "leave", "invite", "ban", "knock"}).Draw(t, "mem"))
